@@ -99,6 +99,28 @@ class SpecMixin:
             return NotImplemented
         m = self.heap.get(it)
         var = gen.generators[0].target.id
+        keys = getattr(m, 'explicit_keys', None)
+        if keys is not None:
+            # a map whose key set is an explicit (bounded stand-in) list: the quantifier is a finite conjunction /
+            # disjunction over exactly those keys -- quantifier-free, hence stable and fast
+            fr = self.frames[-1]
+            had, prev = var in fr.locals, fr.locals.get(var)
+            self.quant_vars.add(var)
+            parts = []
+            try:
+                for kk in keys:
+                    fr.locals[var] = kk
+                    parts.append(z3.And(z3.Select(m.dom, zint(kk)), zbool(self.truth(self.eval(gen.elt)))) if kind == 'any'
+                                 else z3.Implies(z3.Select(m.dom, zint(kk)), zbool(self.truth(self.eval(gen.elt)))))
+            finally:
+                self.quant_vars.discard(var)
+                if had:
+                    fr.locals[var] = prev
+                else:
+                    fr.locals.pop(var, None)
+            if not parts:
+                return kind == 'all'
+            return z3.And(*parts) if kind == 'all' else z3.Or(*parts)
         self.counter += 1
         k = z3.Int('%s!q%d' % (var, self.counter))
         fr = self.frames[-1]
